@@ -121,6 +121,59 @@ func verifConcurrentRequests(out *verifkit.Trace, sim *verifsim.Sim, rounds int)
 	}
 }
 
+/* URLs on the default https port, with the port left out or spelt out, for an IPv4 and an IPv6 literal:
+   the Host header names the authority (brackets included), with or without the default port.  Needs the
+   right to bind port 443 on loopback addresses; reported as skipped otherwise. */
+func verifDefaultPort(out *verifkit.Trace, sim *verifsim.Sim, rng *rand.Rand) {
+	type site struct{ listen, authority string }
+	for k, st := range []site{{"127.0.0.241:443", "127.0.0.241"}, {"[::1]:443", "[::1]"}} {
+		h, err := sim.HostAt(fmt.Sprintf("dp%d", k), st.listen)
+		if err != nil {
+			out.Emit(verifkit.M{"ev": "skipped", "what": "default port on " + st.listen, "why": err.Error()})
+			continue
+		}
+		for i, authority := range []string{st.authority, st.authority + ":443"} {
+			target := fmt.Sprintf("/dp/%d/%d", k, i)
+			body := fmt.Sprintf(`{"id":"https://%s%s","type":"Note","content":"x"}`, authority, target)
+			h.Set(target, &verifsim.Route{Raw: []byte("HTTP/1.0 200 OK\r\nContent-Type: application/activity+json\r\n\r\n" + body)})
+			before := sim.ConnCount()
+			typed := "https://" + authority + target
+			verifkit.Try(func() { FetchUserInput(typed) })
+			sim.Quiesce(2 * time.Second)
+			conns := sim.Conns()[before:]
+			out.Emit(verifkit.M{"ev": "case", "id": 200000 + 10*k + i, "mode": 10, "desc": typed, "conns": len(conns)})
+			for _, c := range conns {
+				ev := verifsim.ConnEvent(c, authority, verifsim.AcceptActivity, target, "")
+				ev["host_alt"] = verifsim.Bytes(st.authority)
+				out.Emit(ev)
+			}
+			if len(conns) != 1 {
+				out.Emit(verifkit.M{"ev": "noconn", "conns": len(conns) - 1})
+			}
+		}
+	}
+}
+
+/* several documents fetched from one server one after the other: every connection is a stranger to the
+   server (nothing at the TLS layer links it to an earlier one) */
+func verifRepeatVisits(out *verifkit.Trace, sim *verifsim.Sim) {
+	h := sim.Host("h3")
+	sim.Reset()
+	before := sim.ConnCount()
+	for i := 0; i < 6; i++ {
+		target := fmt.Sprintf("/visit/%d", i)
+		body := fmt.Sprintf(`{"id":"https://%s%s","type":"Note","content":"x"}`, h.Addr, target)
+		h.Set(target, &verifsim.Route{Raw: []byte("HTTP/1.0 200 OK\r\nContent-Type: application/activity+json\r\n\r\n" + body)})
+		verifkit.Try(func() { FetchUserInput(h.URL(target)) })
+		time.Sleep(20 * time.Millisecond)
+	}
+	sim.Quiesce(2 * time.Second)
+	out.Emit(verifkit.M{"ev": "case", "id": 300000, "mode": 11, "desc": "six documents from one server, one after the other", "conns": sim.ConnCount() - before})
+	for _, ev := range sim.PlainConnEvents(before, func(*verifsim.ConnLog) string { return verifsim.AcceptActivity }) {
+		out.Emit(ev)
+	}
+}
+
 func TestVerifRequests(t *testing.T) {
 	var in struct {
 		Random int `json:"random"`
@@ -134,6 +187,8 @@ func TestVerifRequests(t *testing.T) {
 	rng := verifkit.Rand()
 	h1, h2 := sim.Host("h1"), sim.Host("h2")
 	defer verifConcurrentRequests(out, sim, in.Rounds)
+	defer verifDefaultPort(out, sim, rng)
+	defer verifRepeatVisits(out, sim)
 	note := func(h *verifsim.Host, path string, extra string) *verifsim.Route {
 		body := fmt.Sprintf(`{"id":"https://%s%s","type":"Note","content":"x","published":"2024-01-01T00:00:00Z"%s}`, h.Addr, path, extra)
 		return &verifsim.Route{Raw: []byte("HTTP/1.0 200 OK\r\nContent-Type: application/activity+json\r\n\r\n" + body)}
